@@ -271,6 +271,9 @@ class SuspDecoder:
             if start + clen > len(self.data) or clen == 0 and False:
                 self.anom('susp.5.1/ce-area-out-of-image', base, 'block=%d off=%d len=%d' % ce)
                 break
+            if block < 18:
+                # sectors 0-15 are the system area, 16 and 17 at least a volume descriptor and the set terminator
+                self.anom('susp.5.1/ce-area-in-system-area-or-descriptors', base, 'block=%d off=%d len=%d' % ce)
             info.ce_areas.append(ce)
             self.all_ce.append((block, coff, clen, rec.off))
             area = self.data[start:start + clen]
